@@ -117,12 +117,86 @@ func one(role string, cands []*ssa.Function) (*ssa.Function, error) {
 	if len(u) == 1 {
 		return u[0], nil
 	}
+	// the characteristic constructs of a role may be spread over helper functions that one function drives (the
+	// role function was split into steps): the role is then their lowest common driver
+	if len(u) > 1 && Active != nil {
+		if f := Active.commonDriver(u); f != nil {
+			return f, nil
+		}
+	}
 	var names []string
 	for _, c := range u {
 		names = append(names, FuncName(c))
 	}
 	sort.Strings(names)
 	return nil, fmt.Errorf("role %s: expected exactly one function, found %d %v", role, len(u), names)
+}
+
+// helperLike: an unexported, non-recursive named function that is only called statically, from exactly one
+// (outer) function. Returns that caller.
+func (p *Prog) helperLike(h *ssa.Function) (*ssa.Function, bool) {
+	if h == nil || h.Parent() != nil || !p.InTarget(h) || len(h.Blocks) == 0 || h.Synthetic != "" {
+		return nil, false
+	}
+	if o := h.Object(); o == nil || o.Exported() {
+		return nil, false
+	}
+	var caller *ssa.Function
+	for _, s := range p.Callers(h) {
+		c := Outer(s.Parent())
+		if c == h {
+			return nil, false
+		}
+		if caller != nil && caller != c {
+			return nil, false
+		}
+		caller = c
+	}
+	if caller == nil {
+		return nil, false
+	}
+	if h.Signature.Recv() != nil && p.invokedNames()[h.Name()] {
+		return nil, false
+	}
+	if p.usedAsValue(h) {
+		return nil, false
+	}
+	return caller, true
+}
+
+// commonDriver returns the function from which all of fs are reached through chains of helper-like functions
+// (possibly one of fs itself), or nil.
+func (p *Prog) commonDriver(fs []*ssa.Function) *ssa.Function {
+	chain := func(f *ssa.Function) []*ssa.Function {
+		out := []*ssa.Function{f}
+		for i := 0; i < 4; i++ {
+			c, ok := p.helperLike(out[len(out)-1])
+			if !ok {
+				break
+			}
+			out = append(out, c)
+		}
+		return out
+	}
+	first := chain(fs[0])
+	for _, cand := range first {
+		all := true
+		for _, f := range fs[1:] {
+			found := false
+			for _, x := range chain(f) {
+				if x == cand {
+					found = true
+				}
+			}
+			if !found {
+				all = false
+			}
+		}
+		if all {
+			return cand
+		}
+	}
+	return nil
 }
 
 func (p *Prog) named(fs []*ssa.Function) []*ssa.Function {
@@ -343,11 +417,21 @@ func (p *Prog) resolveRole(role string) (*ssa.Function, error) {
 		return one(role, c)
 
 	case "structWalker":
+		// reads struct tags; grows the ordered value list of a ValueSet
 		var c []*ssa.Function
 		for _, f := range arg {
 			if len(Calls(f, "(reflect.StructTag).Get")) > 0 {
 				c = append(c, f)
 			}
+			Instrs(f, func(in ssa.Instruction) {
+				if st, ok := in.(*ssa.Store); ok {
+					if fr, ok := AsFieldAddr(st.Addr); ok && fr.Owner == "ValueSet" && fr.Field == "values" {
+						if cl, ok := st.Val.(*ssa.Call); ok && CalleeName(cl.Common()) == "builtin.append" {
+							c = append(c, f)
+						}
+					}
+				}
+			})
 		}
 		return one(role, c)
 
